@@ -159,8 +159,8 @@ def through_csv_writer(ns, res, case, ref, expected_header):
 def through_pandas(ns, res, case, ref, expected_header):
     import pandas as pd
     A, B = case['A'], case['B']
-    if not A or (B is not None and not B):
-        return
+    if (not A and case['a_names'] is None) or (B is not None and not B and case['b_names'] is None):
+        return      # a dataframe without rows and without named columns has no shape at all
     if case['q'].get('with'):
         return
     dfa = pd.DataFrame(A, columns=case['a_names']) if case['a_names'] is not None else pd.DataFrame(A)
@@ -173,7 +173,7 @@ def through_pandas(ns, res, case, ref, expected_header):
     except Exception as e:
         res.violation('py:pandas-writer-rejects-header:' + common.feature_sig(case['q']), '[py] query_pandas_dataframe raised %s: %s for %s (A=%r names=%r)' % (type(e).__name__, str(e)[:160], case['query_text'], A, case['a_names']), dict(case, engine='py', leg='pandas'))
         return
-    if expected_header is not None and len(out.columns) == len(expected_header) and len(out) > 0:
+    if expected_header is not None:
         if [str(c) for c in out.columns] != [str(x) for x in expected_header]:
             res.violation('py:pandas-columns-differ:' + common.feature_sig(case['q']), '[py] dataframe columns %r, expected %r for %s' % (list(out.columns), expected_header, case['query_text']), dict(case, engine='py', leg='pandas'))
 
